@@ -256,34 +256,141 @@ theorem savepoint_stays_restorable (fs fs1 : FS) (jobURI' : URI) (snap : JobSnap
     subst this
     exact hid a ha hid'
 
+/-- **artifact_ok_restores** (the restore half on its own): whatever produced it, a savepoint directory that holds
+the job snapshot and, for every operator checkpoint, a document with the ORIGINAL entry for the checkpoint id (the
+rest of the document may differ: later checkpoints appended, others dropped) and every file of that entry with its
+original content, restores the snapshot and the original images. -/
+theorem artifact_ok_restores (fs w : FS) (snap : JobSnap)
+    (hjob : read w (.spJob snap.id) = some (.job snap))
+    (hops : ∀ o ∈ snap.ops, OpArtifactOK fs w snap.id o) :
+    ∃ w', loadFromSavepoint .byId w snap.id = (w', some snap) ∧
+      ∀ o ∈ snap.ops, openDB w' o = openDB fs o ∧ (openDB fs o).isSome := by
+  have hlist : ∀ o ∈ snap.ops, ∃ cks0 cksA ck,
+      read fs (.work o.uri) = some (.doc cks0) ∧ findCk cks0 o.ckptId = some ck ∧
+      read w (artPath snap.id o.uri) = some (.doc cksA) ∧ findCk cksA o.ckptId = some ck ∧
+      (∀ u ∈ ck.files, ∃ c, read fs (.work u) = some c ∧ read w (artPath snap.id u) = some c) ∧
+      opFiles .byId w (artPath snap.id o.uri) o = some (ck.files ++ [o.uri]) := by
+    intro o ho
+    obtain ⟨cks0, cksA, ck, h1, h2, h3, h4, h5⟩ := hops o ho
+    exact ⟨cks0, cksA, ck, h1, h2, h3, h4, h5, by simp [opFiles, h3, listFiles, h4]⟩
+  have hsucc : (restoreOps .byId snap.id w snap.ops).2 = true := by
+    apply copyOps_succeeds _ _ _ (fun u v => work_ne_sp _ u v)
+    intro o ho
+    obtain ⟨_, cksA, ck, _, _, h3, _, h5, h6⟩ := hlist o ho
+    refine ⟨_, h6, fun u hu => ?_⟩
+    rcases List.mem_append.mp hu with hu | hu
+    · obtain ⟨c, _, hc⟩ := h5 u hu; simp [hc]
+    · simp only [List.mem_singleton] at hu; subst hu; simp [h3]
+  cases hr : restoreOps .byId snap.id w snap.ops with
+  | mk w' ok =>
+    rw [hr] at hsucc; simp only at hsucc; subst hsucc
+    refine ⟨w', by simp [loadFromSavepoint, hjob, hr], ?_⟩
+    intro o ho
+    obtain ⟨cks0, cksA, ck, h1, h2, h3, h4, h5, h6⟩ := hlist o ho
+    obtain ⟨files', h1', hsync⟩ :=
+      copyOps_sync .byId (artPath snap.id) .work (fun u v => work_ne_sp _ u v) work_inj snap.ops w w' hr o ho
+    rw [h6] at h1'; injection h1' with h1'; subst h1'
+    have hback : ∀ u ∈ ck.files ++ [o.uri], read w' (.work u) = read w (artPath snap.id u) := by
+      intro u hu
+      obtain ⟨c, hs1, hs2⟩ := hsync u hu
+      have hfr := restoreOps_frame .byId snap.id (artPath snap.id u) rfl snap.ops w
+      rw [hr] at hfr; simp only at hfr
+      rw [hs2, ← hs1, hfr]
+    have hdoc : read w' (.work o.uri) = some (.doc cksA) := by rw [hback o.uri (by simp)]; exact h3
+    refine ⟨openDB_of_entry w' fs o cksA cks0 ck hdoc h4 h1 h2 ?_, openDB_isSome fs o cks0 ck h1 h2 ?_⟩
+    · intro u hu
+      obtain ⟨c, hf, hwc⟩ := h5 u hu
+      rw [hback u (List.mem_append_left _ hu), hwc, hf]
+    · intro u hu
+      obtain ⟨c, hf, _⟩ := h5 u hu
+      simp [hf]
+
 /-! ## creation is not atomic (D53, repaired by beb71d2)
 
 `artifact_complete` and `savepoint_roundtrip` above are about a creation that sees ONE storage value. The real
 creation makes one storage call after the other while the job runs on (`createArtifactS`: a `Sched` of environment
 moves between the calls; `DocMode` = how the operator's document reaches the artifact, regenerated from the source
-as `docMode`). FULL STATEMENT, for the environment the running job really is (operators only ADD entries to their
-documents or drop entries of non-retained checkpoints, never change an entry; WAL, table and job snapshot files are
-never rewritten, only deleted):
+as `docMode`).
 
-    ∀ sch in that discipline, createArtifactS .byId .writeRead fs j snap sch = (fs1, true) → the artifact in fs1
-    restores snap with the images of the savepoint's checkpoint
-
+* `savepoint_roundtrip_interleaved` — FULL statement for the code as it is (`DocMode.writeRead`): for every schedule in
+  the job's discipline `Disc` (documents rewritten keeping or dropping the savepoint's entry, data files and job snapshot
+  never rewritten with other content, anything deleted, other files free), success ⇒ the artifact restores the snapshot
+  and the original images. Proved through `artifact_ok_restores` (what a savepoint directory must hold) and the
+  invariants of `Proofs/Savepoint.lean` (`createOpsS_disc`). `d53_schedule_is_disciplined`: not vacuous.
 * for the former code (`DocMode.copyFile`: the document FILE copied last) it is false:
-  `artifact_complete_counterexample` (a retention update just before the document copy);
-* `d53_repair_witness`: the repaired code gives a restorable artifact under that very schedule;
-* proved for every schedule that leaves the files the creation handles alone, for both modes:
-  `savepoint_roundtrip_interleaved_partial`. NOT proved: the full discipline above (document rewrites that keep the
-  listed entry, deletions of already copied files) for `.writeRead`; those schedules are exercised on the real code by
-  the held creations of the harness (`release k hold n … resume`), whose outputs the model computes with
-  `createArtifactS docMode`. -/
+  `artifact_complete_counterexample` (a retention update just before the document copy, within the discipline);
+  `d53_repair_witness`: the repaired code on that very schedule.
+* `savepoint_roundtrip_interleaved_quiet` / `_current`: either mode, environment leaving the handled files alone (the
+  simulation of the non-atomic by the atomic creation).
+* success itself is NOT guaranteed (D65, open): `creation_succeeds_partial`, `savepoint_lost_to_cleanup_counterexample`. -/
+
+/-- **savepoint_roundtrip_interleaved** (non-atomic creation, the code as it is: the document content read at the start
+is written). The environment is the running job under its discipline (`Disc`): while the creation makes its storage
+calls one by one, operators and store may delete anything, may rewrite an operator's `checkpoints` document into any
+document that keeps the entry of the savepoint's checkpoint as it is or no longer has it (later checkpoints appended,
+non-retained ones dropped), may rewrite a WAL/table file of the savepoint or its job snapshot only with the same
+content, and may do anything to other files — at any moment, any number of times. If the creation nevertheless reports
+success, then from ANY storage agreeing on the savepoint's directory the load succeeds with exactly the snapshot and
+every operator's image equals the one of the original storage and exists. Structural side conditions: an operator's
+document is not itself a WAL/table file of the savepoint, and two operator checkpoints with the same document URI have
+the same checkpoint id. -/
+theorem savepoint_roundtrip_interleaved (fs fs1 w : FS) (jobURI : URI) (snap : JobSnap) (sch : Sched)
+    (hdisc : Disc fs jobURI snap sch)
+    (hsep : ∀ o ∈ snap.ops, ¬ DataOf fs snap o.uri)
+    (hdocs : ∀ o ∈ snap.ops, ∀ o' ∈ snap.ops, o.uri = o'.uri → o.ckptId = o'.ckptId)
+    (hc : createArtifactS .byId .writeRead fs jobURI snap sch = (fs1, true))
+    (hj : read fs (.work jobURI) = some (.job snap))
+    (hw : ∀ p, p.inSp snap.id = true → read w p = read fs1 p) :
+    ∃ w', loadFromSavepoint .byId w snap.id = (w', some snap) ∧
+      ∀ o ∈ snap.ops, openDB w' o = openDB fs o ∧ (openDB fs o).isSome := by
+  unfold createArtifactS at hc
+  cases hco : createOpsS .byId .writeRead snap.id fs sch snap.ops with
+  | mk a1 rest =>
+    obtain ⟨ok, sch1⟩ := rest
+    rw [hco] at hc
+    cases ok with
+    | false => simp at hc
+    | true =>
+      simp only [] at hc
+      have hrun := createOpsS_disc fs jobURI snap snap.id hsep hdocs snap.ops fs sch [] []
+        (fun o ho => ho) (fun u hu => by cases hu) (fun o ho => by cases ho) hdisc (WInv_init fs jobURI snap)
+        (fun u hu => by cases hu) (fun o ho => by cases ho) (by rw [hco])
+      rw [hco] at hrun
+      obtain ⟨hd1, hw1, _, _, hdocinv, hfiles⟩ := hrun
+      obtain ⟨hw2, _, hfr2⟩ := disc_step fs jobURI snap sch1 hd1 a1 hw1
+      cases hr : read (Sched.step a1 sch1).1 (.work jobURI) with
+      | none => rw [hr] at hc; simp at hc
+      | some c =>
+        rw [hr] at hc
+        simp only [Prod.mk.injEq, and_true] at hc
+        subst hc
+        have hcjob : c = .job snap := by
+          rcases hw2.1 jobURI (Or.inl rfl) with h | h
+          · rw [h, hj] at hr; injection hr with hr; exact hr.symm
+          · rw [h] at hr; simp at hr
+        subst hcjob
+        -- the savepoint directory as `w` sees it is the one the run left
+        have hart : ∀ u, read w (artPath snap.id u) = read a1 (artPath snap.id u) := by
+          intro u
+          rw [hw _ (by simp [artPath, Path.inSp]), read_write_ne _ _ (by intro hh; cases hh),
+            hfr2 _ (by simp [artPath, Path.isWork])]
+        apply artifact_ok_restores fs w snap
+        · rw [hw _ (by simp [Path.inSp])]; exact read_write_eq _ _ _
+        · intro o ho
+          obtain ⟨ck, cksA, h1, h2, h3⟩ := hdocinv o ho
+          obtain ⟨cks0, h4, h5⟩ := origEntry_some h1
+          refine ⟨cks0, cksA, ck, h4, h5, by rw [hart]; exact h2, h3, ?_⟩
+          intro u hu
+          obtain ⟨cu, hc1, hc2⟩ := hfiles o ho ck h1 u hu
+          exact ⟨cu, hc1, by rw [hart]; exact hc2⟩
 
 /-- the files `CreateSavepointArtifact` handles when run on `fs` -/
 def Handled (fs : FS) (jobURI : URI) (snap : JobSnap) (u : URI) : Prop :=
   u = jobURI ∨ ∃ o ∈ snap.ops, u = o.uri ∨ ∃ files, opFiles .byId fs (.work o.uri) o = some files ∧ u ∈ files
 
-/-- **savepoint_roundtrip_interleaved_partial** (non-atomic creation, either document mode). Excluded: environment
-moves on the files the creation handles while it runs (see the full statement above). -/
-theorem savepoint_roundtrip_interleaved_partial (m : DocMode) (fs fs1 w : FS) (jobURI : URI) (snap : JobSnap) (sch : Sched)
+/-- **savepoint_roundtrip_interleaved_quiet** (non-atomic creation, either document mode, environment leaving the files
+the creation handles alone): the non-atomic creation is simulated by the atomic one. -/
+theorem savepoint_roundtrip_interleaved_quiet (m : DocMode) (fs fs1 w : FS) (jobURI : URI) (snap : JobSnap) (sch : Sched)
     (hquiet : ∀ e ∈ sch, ∀ x ∈ e, ¬ Handled fs jobURI snap x.uri)
     (hc : createArtifactS .byId m fs jobURI snap sch = (fs1, true))
     (hj : read fs (.work jobURI) = some (.job snap))
@@ -312,7 +419,7 @@ theorem savepoint_roundtrip_interleaved_current (fs fs1 w : FS) (jobURI : URI) (
     (hw : ∀ p, p.inSp snap.id = true → read w p = read fs1 p) :
     ∃ w', loadFromSavepoint .byId w snap.id = (w', some snap) ∧
       ∀ o ∈ snap.ops, openDB w' o = openDB fs o ∧ (openDB fs o).isSome :=
-  savepoint_roundtrip_interleaved_partial docMode fs fs1 w jobURI snap sch hquiet hc hj hw
+  savepoint_roundtrip_interleaved_quiet docMode fs fs1 w jobURI snap sch hquiet hc hj hw
 
 /-- one operator whose document already holds checkpoint 2; while the artifact of savepoint 1 is copied the operator
 applies the retention `[2]` (document rewritten, WAL of checkpoint 1 deleted) just before the document is copied -/
@@ -324,6 +431,45 @@ def d53Snap : JobSnap := ⟨1, [⟨"op0", 1, ⟨"op0/", "checkpoints"⟩⟩], "s
 /-- storage calls: read document, copy 0.wal, copy document, copy job snapshot -/
 def d53Sched : Sched :=
   [[], [], [.put ⟨"op0/", "checkpoints"⟩ (.doc [⟨2, [⟨"op0/", "1.wal"⟩], [[]]⟩]), .del ⟨"op0/", "0.wal"⟩], []]
+
+/-- non-vacuity of `savepoint_roundtrip_interleaved`: the D53 schedule (a retention update — document rewritten without
+the savepoint's entry, its WAL deleted — just before the document reaches the artifact) is within the discipline, the
+structural side conditions hold, and the repaired creation succeeds on it -/
+theorem d53_schedule_is_disciplined :
+    Disc d53FS (jobURI 1) d53Snap d53Sched ∧
+    (∀ o ∈ d53Snap.ops, ¬ DataOf d53FS d53Snap o.uri) ∧
+    (∀ o ∈ d53Snap.ops, ∀ o' ∈ d53Snap.ops, o.uri = o'.uri → o.ckptId = o'.ckptId) := by
+  have horig : origEntry d53FS ⟨"op0", 1, ⟨"op0/", "checkpoints"⟩⟩ = some ⟨1, [⟨"op0/", "0.wal"⟩], [[]]⟩ := by decide
+  have hnotdata : ¬ DataOf d53FS d53Snap ⟨"op0/", "checkpoints"⟩ := by
+    rintro ⟨o, ho, ck, hck, hu⟩
+    simp only [d53Snap, List.mem_singleton] at ho
+    subst ho
+    rw [horig] at hck; injection hck with hck; subst hck
+    revert hu; decide
+  refine ⟨?_, ?_, ?_⟩
+  · intro e he w hw
+    simp only [d53Sched, List.mem_cons, List.mem_nil_iff, or_false] at he
+    rcases he with rfl | rfl | rfl | rfl
+    · cases hw
+    · cases hw
+    · simp only [List.mem_cons, List.mem_nil_iff, or_false] at hw
+      rcases hw with rfl | rfl
+      · refine ⟨?_, ?_⟩
+        · rintro (h | h)
+          · revert h; decide
+          · exact absurd h hnotdata
+        · intro o ho _
+          simp only [d53Snap, List.mem_singleton] at ho
+          subst ho
+          exact ⟨_, rfl, Or.inr (by decide)⟩
+      · trivial
+    · cases hw
+  · intro o ho
+    simp only [d53Snap, List.mem_singleton] at ho
+    subst ho; exact hnotdata
+  · intro o ho o' ho' _
+    simp only [d53Snap, List.mem_singleton] at ho ho'
+    subst ho; subst ho'; rfl
 
 /-- **artifact_complete_counterexample** (D53, the code before beb71d2): the creation reports success, yet the artifact cannot be restored:
 its document has no entry for the savepoint's checkpoint. -/
